@@ -802,7 +802,7 @@ def _helper_shape(h):
         return ("expr", body[0].value)
     chain = _return_chain(body)
     if chain is not None:
-        return ("expr", chain)
+        return ("expr", chain, "chain")
     if nested_defs:
         return None
     if not rets:
@@ -924,7 +924,7 @@ def inline_helpers(fn, resolve, depth=2):
                                 out += [at(p_, st) for p_ in pre] + body
                                 changed[0] = True
                                 continue
-                    if shape is None and kind == "return":
+                    if (shape is None or (shape[0] == "expr" and len(shape) == 3)) and kind == "return":
                         # `return helper(..)`: every return of the helper is a return of the caller
                         hb = [s_ for s_ in h.body if not (isinstance(s_, ast.Expr) and isinstance(s_.value, ast.Constant))]
                         if hb and not h.args.vararg and not h.args.kwarg and not any(isinstance(n_, FuncTypes + (ast.Lambda, ast.Yield, ast.YieldFrom)) for s_ in hb for n_ in ast.walk(s_)):
